@@ -507,7 +507,7 @@ func TestC15(t *testing.T) {
 	rec.Describe("case = (schema with `default` at any depth (<=3) of `properties` over names {a,b,c}: with/without required, defaults of every JSON type incl. null and incomplete objects that get completed, defaults on object and non-object subschemas, asserting leaves so that ValidateDefaults has both outcomes; 4 instances: objects with any subset of the properties, non-objects at any position, extra keys). Oracles: algebraic laws (idempotence, before ⊑ after, no required key filled, every added key declared and justified by a default or a non-empty container, documented completeness) and ValidateDefaults <=> reference evaluator on every (default, declaring subschema) pair. Non-trivial: ApplyDefaults added something. Distinct = distinct (schema, instance).",
 		"schemas contain no $ref/$dynamicRef (ApplyDefaults documents that it does not follow them; ValidateDefaults refuses $dynamicRef)",
 		"instances are map[string]any trees as decoded by encoding/json (plus a map with a named string key type)")
-	rapid.Check(t, propC15(rec))
+	rapid.Check(t, watched("C15", propC15(rec)))
 }
 
 // propC15 is the property body, shared by TestC15 (rapid) and FuzzC15 (native fuzzing over
